@@ -35,6 +35,11 @@ type Sched struct {
 	SeqHash    uint64 // digest of the (task, yield-site) sequence
 	MaxSteps   int
 	Choose     func(runnable []int, lastSite []int) (task int, quantum int)
+	// Ready evaluates a task's wait condition (set with WaitOn); it is called
+	// by the scheduler goroutine while every task is parked and must be a
+	// go:norace function reading harness state only.
+	Ready      func(kind, arg int) bool
+	Deadlocked bool
 	AfterStep  func(step int, task int, site int) bool // false = stop the run (oracle fired)
 	stopped    bool
 	killTimer  *time.Timer
@@ -49,6 +54,8 @@ type Task struct {
 	started  bool
 	LastSite int
 	Panic    interface{}
+	waitKind int
+	waitArg  int
 }
 
 // Active is the running scheduler (nil = simulator inactive: Yield is a nil check).
@@ -75,6 +82,29 @@ func Yield(site int) {
 	s.inSched = true
 	rawWrite(s.ctlW, 'y')
 	rawRead(t.r)
+}
+
+// WaitOn parks the calling task until the scheduler's Ready(kind, arg) holds.
+// kind 0 means "not waiting".
+//
+//go:norace
+func WaitOn(kind, arg int) {
+	s := Active
+	if s == nil || s.inSched || s.cur < 0 {
+		return
+	}
+	t := s.tasks[s.cur]
+	for !s.Ready(kind, arg) {
+		if s.Deadlocked {
+			panic("simhook: deadlock: wait condition can never become true")
+		}
+		t.waitKind, t.waitArg = kind, arg
+		t.LastSite = -3
+		s.inSched = true
+		rawWrite(s.ctlW, 'w')
+		rawRead(t.r)
+		t.waitKind = 0
+	}
 }
 
 // curOrd returns the order controller of the running task, or the global one.
@@ -186,14 +216,25 @@ func (s *Sched) Run() {
 	lastSites := make([]int, len(s.tasks))
 	for {
 		var runnable []int
+		alive := 0
 		for i, t := range s.tasks {
 			if !t.done {
-				runnable = append(runnable, i)
+				alive++
+				if t.waitKind == 0 || s.Deadlocked || s.Ready(t.waitKind, t.waitArg) {
+					runnable = append(runnable, i)
+				}
 			}
 			lastSites[i] = t.LastSite
 		}
-		if len(runnable) == 0 {
+		if alive == 0 {
 			break
+		}
+		if len(runnable) == 0 {
+			// every live task waits for a condition nobody can make true:
+			// harness trouble; release them so that they unwind
+			s.Deadlocked = true
+			s.stopped = true
+			continue
 		}
 		if s.Steps >= s.MaxSteps && !s.stopped {
 			s.stopped = true
